@@ -1,14 +1,36 @@
 (** Evaluator glue for C13: runs the model of the configuration upgrade on
     the documents the harness fed to the real code. *)
 From Coq Require Export String.
+From Coq Require Export Uint63.
 From Coq Require Import Ascii.
 From AGH Require Import Base.Run.
 From AGH Require Export Model.Migrate.
 (* not Local: the shard files contain string literals *)
 Open Scope string_scope.
 
-(** Strings with bytes that cannot sit in a literal are printed as byte lists. *)
-Definition bs (l : list N) : string := fold_right (fun n s => String (ascii_of_N n) s) EmptyString l.
+(** Strings are printed packed, seven bytes to a primitive integer
+    ([len + 8 * little-endian bytes]): elaborating a string literal costs Coq
+    about ten term nodes per character, which dominated the run time. *)
+Definition bit (x i : Uint63.int) : bool :=
+  negb (Uint63.eqb (Uint63.land (Uint63.lsr x i) 1) 0).
+Definition asc (x : Uint63.int) : ascii :=
+  Ascii (bit x 0) (bit x 1) (bit x 2) (bit x 3) (bit x 4) (bit x 5) (bit x 6) (bit x 7).
+Fixpoint bytes_of (len : nat) (x : Uint63.int) : string :=
+  match len with
+  | O => EmptyString
+  | S l => String (asc x) (bytes_of l (Uint63.lsr x 8))
+  end.
+Definition len_of (x : Uint63.int) : nat :=
+  let l := Uint63.land x 7 in
+  if Uint63.eqb l 0 then 0 else if Uint63.eqb l 1 then 1 else if Uint63.eqb l 2 then 2
+  else if Uint63.eqb l 3 then 3 else if Uint63.eqb l 4 then 4 else if Uint63.eqb l 5 then 5
+  else if Uint63.eqb l 6 then 6 else 7.
+Definition s1 (n : Uint63.int) : string := bytes_of (len_of n) (Uint63.lsr n 3).
+Inductive il := I0 | IC (x : Uint63.int) (l : il).
+Arguments s1 n%uint63_scope.
+Arguments IC x%uint63_scope l.
+Fixpoint sn (l : il) : string :=
+  match l with I0 => EmptyString | IC x l' => s1 x ++ sn l' end.
 Definition kv (k : string) (v : val) : string * val := (k, v).
 
 (** Oracle values observed by the harness for this document. *)
